@@ -193,5 +193,72 @@ m("c16-sdk-msgserver-in-precompile", "C16", "precompiles/staking/tx.go",
 m("c16-redelegate-to-delegate", "C16", "precompiles/distribution/tx.go",
   "res, err := msgSrv.WithdrawDelegatorReward(sdk.WrapSDKContext(ctx), msg)", "res, err := msgSrv.WithdrawDelegatorReward(sdk.WrapSDKContext(ctx), msg)\n\tif err == nil {\n\t\t_, err = msgSrv.FundCommunityPool(sdk.WrapSDKContext(ctx), nil)\n\t}", "native-dispatch")
 
+# ---------------- C08 ----------------
+m("c08-locked-uncapped-delegated", "C08", "x/vesting/types/clawback_vesting_account.go",
+  "lockedUpVestedDelegatedCoins := va.DelegatedFree.Add(va.DelegatedVesting...).Min(va.GetLockedUpVestedCoins(blockTime))",
+  "lockedUpVestedDelegatedCoins := va.DelegatedFree.Add(va.DelegatedVesting...)", "LockedCoins#composition",
+  "every delegated coin reduces the locked amount, not only min(delegated, locked-up vested): delegating frees unvested coins")
+m("c08-module-registers-sdk-server", "C08", "x/staking/module.go",
+  "types.RegisterMsgServer(cfg.MsgServer(), keeper.NewMsgServerImpl(am.keeper))",
+  "types.RegisterMsgServer(cfg.MsgServer(), stakingkeeper.NewMsgServerImpl(am.keeper.Keeper))", "RegisterServices#",
+  "module installs the unwrapped SDK staking message server")
+m("c08-convert-stakes-whole-grant", "C08", "x/vesting/keeper/msg_server.go",
+  "found, amountToDelegate := vestedCoins.Find(bondDenom)", "found, amountToDelegate := msg.GetVestingPeriods().TotalAmount().Find(bondDenom)",
+  "delegateVestedCoins#sdk-Keeper.Delegate", "ConvertIntoVestingAccount --stake bonds the whole grant, vested or not")
+m("c08-createvalidator-checks-minself", "C08", "x/staking/keeper/msg_server.go",
+  "k.validateDelegationAmountNotUnvested(goCtx, msg.DelegatorAddress, msg.Value.Amount)",
+  "k.validateDelegationAmountNotUnvested(goCtx, msg.DelegatorAddress, msg.MinSelfDelegation)", "CreateValidator#check-before-dispatch",
+  "unvested check runs on the min self delegation, not on the bonded value")
+m("c08-delegatable-ignores-unvested", "C08", "x/staking/keeper/msg_server.go",
+  "\tdelegatableAmt := balance.Amount.Sub(unvestedBondableAmt)\n", "\tdelegatableAmt := balance.Amount\n\t_ = unvestedBondableAmt\n",
+  "validateDelegationAmountNotUnvested#rejects-unvested", "delegatable = whole balance")
+m("c08-spendable-ignores-lockup", "C08", "app/ante/evm/vesting.go",
+  "lockedBalances := account.LockedCoins(ctx.BlockTime())", "lockedBalances := account.GetVestingCoins(ctx.BlockTime())",
+  "updateAccountExpenses#spendable", "eth ante: only unvested coins count as locked, vested-but-locked-up coins become spendable")
+m("c08-eth-vesting-per-message", "C08", "app/ante/evm/vesting.go",
+  "\t\ttotal := expenses.total\n", "\t\ttotal := msgValue\n",
+  "AnteHandle#spend-within-spendable", "each message is compared alone with the spendable balance; a multi-message tx overspends")
+m("c08-addgrant-endtime-lockup-only", "C08", "x/vesting/keeper/msg_server.go",
+  "\tva.EndTime = types.Max64(newLockupEnd, newVestingEnd)\n", "\tva.EndTime = newLockupEnd\n\t_ = newVestingEnd\n",
+  "addGrant#EndTime", "merged account ends with its lockup; ReadSchedule releases the whole vesting total from then on")
+
+# ---------------- C09 ----------------
+m("c09-clawback-dest-is-funder", "C09", "x/vesting/keeper/msg_server.go",
+  "\tif va.FunderAddress != funder.String() {", "\tif va.FunderAddress != funder.String() && va.FunderAddress != dest.String() {",
+  "Clawback#only-funder", "anyone may trigger the clawback as long as the coins go to the funder")
+m("c09-updatefunder-compares-new", "C09", "x/vesting/keeper/msg_server.go",
+  "\tif va.FunderAddress != msg.FunderAddress {", "\tif va.FunderAddress == msg.NewFunderAddress {",
+  "UpdateVestingFunder#only-funder", "authority check replaced by a no-op-update check")
+m("c09-merge-by-owner", "C09", "x/vesting/keeper/msg_server.go",
+  "\t\tcase msg.FromAddress != vestingAcc.FunderAddress:", "\t\tcase msg.FromAddress != vestingAcc.FunderAddress && msg.FromAddress != msg.ToAddress:",
+  "CreateClawbackVestingAccount#merge-only-by-funder", "the vesting account itself may merge grants")
+m("c09-clawback-moves-funder", "C09", "x/vesting/keeper/msg_server.go",
+  "\t// set the account with the updated values of the vesting schedule\n\tk.accountKeeper.SetAccount(ctx, &updatedAcc)",
+  "\tupdatedAcc.FunderAddress = dest.String()\n\tk.accountKeeper.SetAccount(ctx, &updatedAcc)",
+  "writes-FunderAddress", "clawback hands the funder role to the destination")
+m("c09-clawback-stores-stale-account", "C09", "x/vesting/keeper/msg_server.go",
+  "\tk.accountKeeper.SetAccount(ctx, &updatedAcc)", "\tk.accountKeeper.SetAccount(ctx, &va)",
+  "transferClawback#stores-updated-account", "coins leave but the account keeps its old schedule and OriginalVesting")
+m("c09-clawback-returns-locked", "C09", "x/vesting/types/clawback_vesting_account.go",
+  "totalUnvested := va.GetVestingCoins(time.Unix(clawbackTime, 0))", "totalUnvested := va.LockedCoins(time.Unix(clawbackTime, 0))",
+  "ComputeClawback#returns-unvested", "claws back every locked coin, vested-but-locked ones included")
+m("c09-blocked-check-on-funder", "C09", "x/vesting/keeper/msg_server.go",
+  "\tif bk.BlockedAddr(dest) {\n\t\treturn nil, errorsmod.Wrapf(errortypes.ErrUnauthorized,\n\t\t\t\"%s is not allowed to receive funds\", msg.DestAddress,",
+  "\tif bk.BlockedAddr(funder) {\n\t\treturn nil, errorsmod.Wrapf(errortypes.ErrUnauthorized,\n\t\t\t\"%s is not allowed to receive funds\", msg.DestAddress,",
+  "Clawback#dest-not-blocked", "blocked-address check applied to the funder instead of the destination")
+m("c09-default-dest-is-account", "C09", "x/vesting/keeper/msg_server.go",
+  "\tif msg.DestAddress == \"\" {\n\t\tdest = funder\n\t}", "\tif msg.DestAddress == \"\" {\n\t\tdest = addr\n\t}",
+  "Clawback#dest-source", "without a destination the unvested coins go back to the vesting account itself")
+m("c09-addgrant-keeps-lockup", "C09", "x/vesting/keeper/msg_server.go",
+  "\tva.LockupPeriods = newLockupPeriods\n", "\tif len(va.LockupPeriods) == 0 {\n\t\tva.LockupPeriods = newLockupPeriods\n\t}\n",
+  "addGrant#sets-LockupPeriods", "merge keeps the old lockup list although start time moved")
+m("c09-pastcount-boundary", "C09", "x/vesting/types/schedule.go",
+  "\t\tif readTime < elapsedTime+period.Length {\n\t\t\t// we're reading before the next event\n\t\t\tbreak\n\t\t}\n\t\tpassedPeriods++",
+  "\t\tif readTime <= elapsedTime+period.Length {\n\t\t\t// we're reading before the next event\n\t\t\tbreak\n\t\t}\n\t\tpassedPeriods++",
+  "ReadPastPeriodCount#period-end-vs-readTime", "a period ending exactly at the clawback time is counted vested by ReadSchedule but cut from the period list")
+m("c09-readschedule-start-inclusive", "C09", "x/vesting/types/schedule.go",
+  "\tif readTime <= startTime {\n\t\treturn sdk.NewCoins()", "\tif readTime < startTime {\n\t\treturn sdk.NewCoins()",
+  "ReadSchedule#limits", "a zero-length first period is released at the start instant")
+
 json.dump(M, open('/verif/mutants.json', 'w'), indent=1)
 print(len(M), "mutants written")
